@@ -1,1 +1,1210 @@
-// placeholder
+//! `vbv` — a small reference model of IEEE 1800 four-state bit vectors.
+//!
+//! Written from the LRM (IEEE 1800-2017 clause 11: Table 11-21 expression bit
+//! lengths, 11.8.1/11.8.2 expression types and evaluation steps, 11.4.x
+//! operator definitions), not from any implementation.  Clarity over speed: a
+//! value is a `Vec<Bit>` (LSB first) plus a signedness flag; arithmetic on
+//! fully known operands goes through mathematical integers (`num-bigint`) and
+//! is reduced modulo 2^width.
+//!
+//! Two layers:
+//!
+//! * [`Bv`] and the *sized* operator functions ([`Bv::add`], [`Bv::shl`], …):
+//!   the operands are already in the context type (same width, same
+//!   signedness) exactly as after the propagation step of 11.8.2.
+//! * [`unary`] / [`binary`] / [`cond`] and the [`expr::Expr`] tree: apply the
+//!   sizing and signedness rules themselves (self-determined vs context
+//!   determined operands) and then call the sized functions.
+//!
+//! See README.md for the rule list and the places where the LRM leaves
+//! latitude ([`Latitude`]).
+
+pub mod expr;
+
+use num_bigint::{BigInt, BigUint, Sign};
+use num_traits::{One, Zero};
+use std::fmt;
+
+// ---------------------------------------------------------------------------
+// Bit
+// ---------------------------------------------------------------------------
+
+/// One four-state bit.
+#[derive(Clone, Copy, PartialEq, Eq, Hash, Debug, PartialOrd, Ord)]
+pub enum Bit {
+    Zero,
+    One,
+    X,
+    Z,
+}
+
+use Bit::{One as B1, X as BX, Z as BZ, Zero as B0};
+
+impl Bit {
+    pub const ALL: [Bit; 4] = [B0, B1, BX, BZ];
+
+    pub fn from_bool(b: bool) -> Bit {
+        if b { B1 } else { B0 }
+    }
+    /// `Some(false/true)` for 0/1, `None` for X/Z.
+    pub fn known(self) -> Option<bool> {
+        match self {
+            B0 => Some(false),
+            B1 => Some(true),
+            _ => None,
+        }
+    }
+    pub fn is_xz(self) -> bool {
+        matches!(self, BX | BZ)
+    }
+    pub fn to_char(self) -> char {
+        match self {
+            B0 => '0',
+            B1 => '1',
+            BX => 'x',
+            BZ => 'z',
+        }
+    }
+    pub fn from_char(c: char) -> Option<Bit> {
+        match c {
+            '0' => Some(B0),
+            '1' => Some(B1),
+            'x' | 'X' => Some(BX),
+            'z' | 'Z' | '?' => Some(BZ),
+            _ => None,
+        }
+    }
+    /// Table 11-11 (bitwise and).  Z behaves as X.
+    pub fn and(self, o: Bit) -> Bit {
+        match (self.known(), o.known()) {
+            (Some(false), _) | (_, Some(false)) => B0,
+            (Some(true), Some(true)) => B1,
+            _ => BX,
+        }
+    }
+    /// Table 11-12 (bitwise or).
+    pub fn or(self, o: Bit) -> Bit {
+        match (self.known(), o.known()) {
+            (Some(true), _) | (_, Some(true)) => B1,
+            (Some(false), Some(false)) => B0,
+            _ => BX,
+        }
+    }
+    /// Table 11-13 (bitwise xor).
+    pub fn xor(self, o: Bit) -> Bit {
+        match (self.known(), o.known()) {
+            (Some(a), Some(b)) => Bit::from_bool(a ^ b),
+            _ => BX,
+        }
+    }
+    /// Table 11-14 (bitwise xnor).
+    pub fn xnor(self, o: Bit) -> Bit {
+        self.xor(o).not()
+    }
+    /// Table 11-15 (bitwise negation).
+    pub fn not(self) -> Bit {
+        match self.known() {
+            Some(b) => Bit::from_bool(!b),
+            None => BX,
+        }
+    }
+    /// Table 11-20 (merge of the two arms of `?:` under an unknown condition).
+    pub fn merge(self, o: Bit) -> Bit {
+        match (self.known(), o.known()) {
+            (Some(a), Some(b)) if a == b => Bit::from_bool(a),
+            _ => BX,
+        }
+    }
+}
+
+/// Three-valued truth of an operand used as a condition (11.4.7): true when
+/// some bit is a known 1, false when every bit is a known 0, unknown otherwise.
+#[derive(Clone, Copy, PartialEq, Eq, Debug)]
+pub enum Truth {
+    False,
+    True,
+    Unknown,
+}
+
+impl Truth {
+    pub fn to_bit(self) -> Bit {
+        match self {
+            Truth::False => B0,
+            Truth::True => B1,
+            Truth::Unknown => BX,
+        }
+    }
+}
+
+// ---------------------------------------------------------------------------
+// Operators
+// ---------------------------------------------------------------------------
+
+#[derive(Clone, Copy, PartialEq, Eq, Hash, Debug)]
+pub enum UnOp {
+    /// `+a`
+    Plus,
+    /// `-a`
+    Minus,
+    /// `~a`
+    BitNot,
+    /// `&a`
+    RedAnd,
+    /// `~&a`
+    RedNand,
+    /// `|a`
+    RedOr,
+    /// `~|a`
+    RedNor,
+    /// `^a`
+    RedXor,
+    /// `~^a`
+    RedXnor,
+    /// `!a`
+    LogNot,
+}
+
+impl UnOp {
+    pub const ALL: [UnOp; 10] = [
+        UnOp::Plus,
+        UnOp::Minus,
+        UnOp::BitNot,
+        UnOp::RedAnd,
+        UnOp::RedNand,
+        UnOp::RedOr,
+        UnOp::RedNor,
+        UnOp::RedXor,
+        UnOp::RedXnor,
+        UnOp::LogNot,
+    ];
+    /// Operand is context-determined and the result has the context type
+    /// (`+ - ~`); otherwise the operand is self-determined and the result is
+    /// 1 bit unsigned.
+    pub fn is_context(self) -> bool {
+        matches!(self, UnOp::Plus | UnOp::Minus | UnOp::BitNot)
+    }
+    pub fn sv(self) -> &'static str {
+        match self {
+            UnOp::Plus => "+",
+            UnOp::Minus => "-",
+            UnOp::BitNot => "~",
+            UnOp::RedAnd => "&",
+            UnOp::RedNand => "~&",
+            UnOp::RedOr => "|",
+            UnOp::RedNor => "~|",
+            UnOp::RedXor => "^",
+            UnOp::RedXnor => "~^",
+            UnOp::LogNot => "!",
+        }
+    }
+}
+
+#[derive(Clone, Copy, PartialEq, Eq, Hash, Debug)]
+pub enum BinOp {
+    Add,
+    Sub,
+    Mul,
+    Div,
+    Rem,
+    Pow,
+    And,
+    Or,
+    Xor,
+    Xnor,
+    /// `<<`
+    Shl,
+    /// `>>`
+    Shr,
+    /// `<<<`
+    AShl,
+    /// `>>>`
+    AShr,
+    Lt,
+    Le,
+    Gt,
+    Ge,
+    Eq,
+    Ne,
+    /// `===`
+    CaseEq,
+    /// `!==`
+    CaseNe,
+    /// `==?`
+    WildEq,
+    /// `!=?`
+    WildNe,
+    LogAnd,
+    LogOr,
+}
+
+/// How an operator sizes its operands and result (Table 11-21).
+#[derive(Clone, Copy, PartialEq, Eq, Debug)]
+pub enum BinClass {
+    /// `+ - * / % & | ^ ~^`: both operands context-determined, result = context.
+    Arith,
+    /// `<< >> <<< >>> **`: left operand context-determined, right self-determined.
+    ShiftPow,
+    /// relational / equality: operands sized to max(L(i),L(j)) (signed iff both
+    /// signed), result 1 bit unsigned.
+    Compare,
+    /// `&& ||`: both operands self-determined, result 1 bit unsigned.
+    Logical,
+}
+
+impl BinOp {
+    pub const ALL: [BinOp; 26] = [
+        BinOp::Add,
+        BinOp::Sub,
+        BinOp::Mul,
+        BinOp::Div,
+        BinOp::Rem,
+        BinOp::Pow,
+        BinOp::And,
+        BinOp::Or,
+        BinOp::Xor,
+        BinOp::Xnor,
+        BinOp::Shl,
+        BinOp::Shr,
+        BinOp::AShl,
+        BinOp::AShr,
+        BinOp::Lt,
+        BinOp::Le,
+        BinOp::Gt,
+        BinOp::Ge,
+        BinOp::Eq,
+        BinOp::Ne,
+        BinOp::CaseEq,
+        BinOp::CaseNe,
+        BinOp::WildEq,
+        BinOp::WildNe,
+        BinOp::LogAnd,
+        BinOp::LogOr,
+    ];
+    pub fn class(self) -> BinClass {
+        use BinOp::*;
+        match self {
+            Add | Sub | Mul | Div | Rem | And | Or | Xor | Xnor => BinClass::Arith,
+            Shl | Shr | AShl | AShr | Pow => BinClass::ShiftPow,
+            Lt | Le | Gt | Ge | Eq | Ne | CaseEq | CaseNe | WildEq | WildNe => BinClass::Compare,
+            LogAnd | LogOr => BinClass::Logical,
+        }
+    }
+    pub fn sv(self) -> &'static str {
+        use BinOp::*;
+        match self {
+            Add => "+",
+            Sub => "-",
+            Mul => "*",
+            Div => "/",
+            Rem => "%",
+            Pow => "**",
+            And => "&",
+            Or => "|",
+            Xor => "^",
+            Xnor => "~^",
+            Shl => "<<",
+            Shr => ">>",
+            AShl => "<<<",
+            AShr => ">>>",
+            Lt => "<",
+            Le => "<=",
+            Gt => ">",
+            Ge => ">=",
+            Eq => "==",
+            Ne => "!=",
+            CaseEq => "===",
+            CaseNe => "!==",
+            WildEq => "==?",
+            WildNe => "!=?",
+            LogAnd => "&&",
+            LogOr => "||",
+        }
+    }
+}
+
+/// Points where the LRM is silent or implementations are known to differ.
+/// The sized operator functions report them so that a caller can accept
+/// either behaviour (and count how often that happened).
+#[derive(Clone, Copy, PartialEq, Eq, Hash, Debug, PartialOrd, Ord)]
+pub enum Latitude {
+    /// signed `MIN / -1` (quotient not representable; this model wraps to MIN)
+    /// and `MIN % -1` (this model gives 0).
+    SignedMinDivMinusOne,
+    /// `**` with operands of different signedness: this model takes the type
+    /// of the result from the left operand alone (the right operand is
+    /// self-determined, 11.4.3 / 11.8.1); some tools take it from both.
+    PowMixedSign,
+    /// a sign bit that is X or Z was replicated (sign extension or `>>>`
+    /// fill): this model replicates the bit as it is; the alternative fills
+    /// with X.
+    XzSignBit,
+    /// unary `+` on an operand with x/z bits: Table 11-5 lists it as an
+    /// arithmetic operator (⇒ all x, this model's default); many tools treat
+    /// it as the identity.
+    UnaryPlusXz,
+}
+
+/// One consistent choice at every [`Latitude`] point that has a finite set of
+/// alternatives.  `Dialect::default()` is the literal reading of the LRM;
+/// [`Dialect::all`] enumerates every combination so that a checker can accept
+/// any of them.  ([`Latitude::SignedMinDivMinusOne`] has no switch: any result
+/// is acceptable there, a checker should not constrain such a case at all.)
+#[derive(Clone, Copy, PartialEq, Eq, Hash, Debug, Default)]
+pub struct Dialect {
+    /// `**`: result (and base) signed only if *both* operands are signed.
+    pub pow_sign_from_both: bool,
+    /// unary `+` passes x/z bits through unchanged.
+    pub unary_plus_passthrough: bool,
+    /// an x/z sign bit extends / arithmetic-shifts in as x (not as itself).
+    pub xz_sign_fill_x: bool,
+}
+
+impl Dialect {
+    pub fn all() -> Vec<Dialect> {
+        let mut v = vec![];
+        for a in [false, true] {
+            for b in [false, true] {
+                for c in [false, true] {
+                    v.push(Dialect {
+                        pow_sign_from_both: a,
+                        unary_plus_passthrough: b,
+                        xz_sign_fill_x: c,
+                    });
+                }
+            }
+        }
+        v
+    }
+}
+
+// ---------------------------------------------------------------------------
+// Bv
+// ---------------------------------------------------------------------------
+
+/// A four-state bit vector of fixed width with a signedness flag.
+/// `bits[0]` is the least significant bit.  Width 0 is allowed (empty
+/// concatenation seed) but no operator other than `concat` accepts it.
+#[derive(Clone, PartialEq, Eq, Hash, Debug)]
+pub struct Bv {
+    bits: Vec<Bit>,
+    signed: bool,
+}
+
+fn pow2(width: usize) -> BigUint {
+    BigUint::one() << width
+}
+
+impl Bv {
+    // ----- construction ---------------------------------------------------
+
+    /// From bits given LSB first.
+    pub fn new(bits_lsb_first: Vec<Bit>, signed: bool) -> Bv {
+        Bv {
+            bits: bits_lsb_first,
+            signed,
+        }
+    }
+    pub fn filled(bit: Bit, width: usize, signed: bool) -> Bv {
+        Bv::new(vec![bit; width], signed)
+    }
+    pub fn zeros(width: usize, signed: bool) -> Bv {
+        Bv::filled(B0, width, signed)
+    }
+    pub fn all_x(width: usize, signed: bool) -> Bv {
+        Bv::filled(BX, width, signed)
+    }
+    pub fn bit1(b: Bit) -> Bv {
+        Bv::new(vec![b], false)
+    }
+    /// The low `width` bits of `v` (two's complement pattern).
+    pub fn from_biguint(v: &BigUint, width: usize, signed: bool) -> Bv {
+        Bv::new((0..width as u64).map(|i| Bit::from_bool(v.bit(i))).collect(), signed)
+    }
+    /// The mathematical integer `v` reduced modulo 2^width.
+    pub fn from_bigint(v: &BigInt, width: usize, signed: bool) -> Bv {
+        let m = BigInt::from_biguint(Sign::Plus, pow2(width));
+        let mut r = v % &m;
+        if r.sign() == Sign::Minus {
+            r += &m;
+        }
+        Bv::from_biguint(r.magnitude(), width, signed)
+    }
+    pub fn from_u64(v: u64, width: usize, signed: bool) -> Bv {
+        Bv::from_biguint(&BigUint::from(v), width, signed)
+    }
+    pub fn from_i64(v: i64, width: usize, signed: bool) -> Bv {
+        Bv::from_bigint(&BigInt::from(v), width, signed)
+    }
+    /// From a string of `0 1 x z` written MSB first (underscores ignored).
+    pub fn from_msb_str(s: &str, signed: bool) -> Option<Bv> {
+        let mut bits = Vec::new();
+        for c in s.chars().rev() {
+            if c == '_' {
+                continue;
+            }
+            bits.push(Bit::from_char(c)?);
+        }
+        Some(Bv::new(bits, signed))
+    }
+    /// Two-plane encoding used by many implementations: bit i of `xz` clear ⇒
+    /// the bit is `val[i]`; set ⇒ X when `val[i]` is 0 and Z when it is 1.
+    pub fn from_planes(val: &BigUint, xz: &BigUint, width: usize, signed: bool) -> Bv {
+        Bv::new(
+            (0..width as u64)
+                .map(|i| match (xz.bit(i), val.bit(i)) {
+                    (false, false) => B0,
+                    (false, true) => B1,
+                    (true, false) => BX,
+                    (true, true) => BZ,
+                })
+                .collect(),
+            signed,
+        )
+    }
+    /// Inverse of [`Bv::from_planes`]: `(val, xz)`.
+    pub fn to_planes(&self) -> (BigUint, BigUint) {
+        let mut val = BigUint::zero();
+        let mut xz = BigUint::zero();
+        for (i, b) in self.bits.iter().enumerate() {
+            match b {
+                B0 => {}
+                B1 => val.set_bit(i as u64, true),
+                BX => xz.set_bit(i as u64, true),
+                BZ => {
+                    val.set_bit(i as u64, true);
+                    xz.set_bit(i as u64, true);
+                }
+            }
+        }
+        (val, xz)
+    }
+    /// IEEE 1800 Annex H `svLogicVecVal` words (32 bits per word, LSB word
+    /// first): per bit `(aval,bval)` = 0→(0,0) 1→(1,0) Z→(0,1) X→(1,1).
+    /// Unused bits of the last word are 0.
+    pub fn to_sv_logic_words(&self) -> Vec<(u32, u32)> {
+        let words = self.width().div_ceil(32);
+        let mut out = vec![(0u32, 0u32); words];
+        for (i, b) in self.bits.iter().enumerate() {
+            let (a, bv) = match b {
+                B0 => (0, 0),
+                B1 => (1, 0),
+                BZ => (0, 1),
+                BX => (1, 1),
+            };
+            out[i / 32].0 |= a << (i % 32);
+            out[i / 32].1 |= bv << (i % 32);
+        }
+        out
+    }
+    /// Inverse of [`Bv::to_sv_logic_words`] for the low `width` bits.
+    pub fn from_sv_logic_words(words: &[(u32, u32)], width: usize, signed: bool) -> Bv {
+        Bv::new(
+            (0..width)
+                .map(|i| {
+                    let (a, b) = words.get(i / 32).copied().unwrap_or((0, 0));
+                    match ((a >> (i % 32)) & 1, (b >> (i % 32)) & 1) {
+                        (0, 0) => B0,
+                        (1, 0) => B1,
+                        (0, 1) => BZ,
+                        _ => BX,
+                    }
+                })
+                .collect(),
+            signed,
+        )
+    }
+
+    // ----- inspection -----------------------------------------------------
+
+    pub fn width(&self) -> usize {
+        self.bits.len()
+    }
+    pub fn signed(&self) -> bool {
+        self.signed
+    }
+    /// Bits, LSB first.
+    pub fn bits(&self) -> &[Bit] {
+        &self.bits
+    }
+    /// Bit `i` (LSB = 0); X when out of range (11.5.1).
+    pub fn bit(&self, i: usize) -> Bit {
+        self.bits.get(i).copied().unwrap_or(BX)
+    }
+    pub fn msb(&self) -> Bit {
+        self.bits.last().copied().unwrap_or(B0)
+    }
+    pub fn has_xz(&self) -> bool {
+        self.bits.iter().any(|b| b.is_xz())
+    }
+    /// The bit pattern as an unsigned integer; `None` when a bit is X/Z.
+    pub fn to_biguint(&self) -> Option<BigUint> {
+        let mut v = BigUint::zero();
+        for (i, b) in self.bits.iter().enumerate() {
+            if b.known()? {
+                v.set_bit(i as u64, true);
+            }
+        }
+        Some(v)
+    }
+    /// The mathematical value under the vector's own signedness.
+    pub fn to_bigint(&self) -> Option<BigInt> {
+        let u = self.to_biguint()?;
+        let v = BigInt::from_biguint(Sign::Plus, u);
+        if self.signed && self.msb() == B1 {
+            Some(v - BigInt::from_biguint(Sign::Plus, pow2(self.width())))
+        } else {
+            Some(v)
+        }
+    }
+    pub fn truth(&self) -> Truth {
+        if self.bits.contains(&B1) {
+            Truth::True
+        } else if self.has_xz() {
+            Truth::Unknown
+        } else {
+            Truth::False
+        }
+    }
+    /// Same bits, other signedness (`$signed` / `$unsigned`, 11.7).
+    pub fn with_signed(&self, signed: bool) -> Bv {
+        Bv::new(self.bits.clone(), signed)
+    }
+    /// MSB-first string of `0 1 x z`.
+    pub fn to_msb_string(&self) -> String {
+        self.bits.iter().rev().map(|b| b.to_char()).collect()
+    }
+
+    // ----- sizing ---------------------------------------------------------
+
+    /// Extend to `width` (no-op when already that wide or wider): sign
+    /// extension (replicating the MSB as it is, also when it is X/Z) when
+    /// `sign_extend`, zero extension otherwise.
+    pub fn extend(&self, width: usize, sign_extend: bool) -> Bv {
+        let mut bits = self.bits.clone();
+        let fill = if sign_extend && !bits.is_empty() { self.msb() } else { B0 };
+        while bits.len() < width {
+            bits.push(fill);
+        }
+        Bv::new(bits, self.signed)
+    }
+    /// Keep the low `width` bits (no-op when not wider).
+    pub fn truncate(&self, width: usize) -> Bv {
+        let mut bits = self.bits.clone();
+        bits.truncate(width);
+        Bv::new(bits, self.signed)
+    }
+    /// Assignment-style resize (10.7): extend by the vector's own signedness,
+    /// or truncate.
+    pub fn resize(&self, width: usize) -> Bv {
+        if self.width() >= width {
+            self.truncate(width)
+        } else {
+            self.extend(width, self.signed)
+        }
+    }
+    /// The propagation step of 11.8.2 for a simple operand: convert to the
+    /// propagated type; when it has to be extended it is sign-extended only
+    /// if the propagated type is signed (which, by 11.8.1, implies the operand
+    /// itself is signed).  `width` must be ≥ the operand's width.
+    pub fn to_context(&self, width: usize, signed: bool) -> Bv {
+        assert!(width >= self.width(), "context narrower than operand");
+        self.extend(width, signed && self.signed).with_signed(signed)
+    }
+    /// [`Bv::to_context`] under a dialect (x/z sign bit handling).
+    pub fn to_context_d(&self, width: usize, signed: bool, d: &Dialect) -> Bv {
+        if d.xz_sign_fill_x && self.xz_sign_replicated(width, signed) {
+            let mut bits = self.bits.clone();
+            bits.resize(width, BX);
+            return Bv::new(bits, signed);
+        }
+        self.to_context(width, signed)
+    }
+    /// True when [`Bv::to_context`] / `resize` would replicate an X/Z sign bit.
+    pub fn xz_sign_replicated(&self, width: usize, sign_extend: bool) -> bool {
+        sign_extend && self.signed && width > self.width() && self.msb().is_xz()
+    }
+
+    /// `{self, low}` (11.4.12): unsigned.
+    pub fn concat(&self, low: &Bv) -> Bv {
+        let mut bits = low.bits.clone();
+        bits.extend_from_slice(&self.bits);
+        Bv::new(bits, false)
+    }
+    /// `{parts[0], parts[1], …}` — first part is the most significant.
+    pub fn concat_all(parts: &[Bv]) -> Bv {
+        let mut r = Bv::new(vec![], false);
+        for p in parts {
+            r = r.concat(p);
+        }
+        r
+    }
+    /// `{n{self}}` (11.4.12.1): unsigned.
+    pub fn replicate(&self, n: usize) -> Bv {
+        let mut bits = Vec::with_capacity(n * self.width());
+        for _ in 0..n {
+            bits.extend_from_slice(&self.bits);
+        }
+        Bv::new(bits, false)
+    }
+    /// Part select `[hi:lo]` (11.5.1): unsigned, bits outside the vector read
+    /// X.  Requires `hi >= lo`.
+    pub fn part_select(&self, hi: usize, lo: usize) -> Bv {
+        assert!(hi >= lo);
+        Bv::new((lo..=hi).map(|i| self.bit(i)).collect(), false)
+    }
+    /// Write `value` (resized to the slice) into `[hi:lo]`; bits outside the
+    /// vector are ignored.
+    pub fn part_assign(&self, hi: usize, lo: usize, value: &Bv) -> Bv {
+        assert!(hi >= lo);
+        let v = value.resize(hi - lo + 1);
+        let mut bits = self.bits.clone();
+        for i in lo..=hi {
+            if i < bits.len() {
+                bits[i] = v.bits[i - lo];
+            }
+        }
+        Bv::new(bits, self.signed)
+    }
+
+    // ----- sized operators (operands already in the context type) ----------
+
+    fn same_type(&self, o: &Bv) {
+        assert_eq!(self.width(), o.width(), "sized operator: widths differ");
+        assert_eq!(self.signed, o.signed, "sized operator: signedness differs");
+        assert!(self.width() > 0, "sized operator: zero width");
+    }
+    fn arith(&self, o: &Bv, f: impl Fn(BigInt, BigInt) -> Option<BigInt>) -> Bv {
+        self.same_type(o);
+        match (self.to_bigint(), o.to_bigint()) {
+            (Some(a), Some(b)) => match f(a, b) {
+                Some(r) => Bv::from_bigint(&r, self.width(), self.signed),
+                None => Bv::all_x(self.width(), self.signed),
+            },
+            // 11.4.2: any x/z bit in an arithmetic operand ⇒ the whole result is x
+            _ => Bv::all_x(self.width(), self.signed),
+        }
+    }
+    /// `a + b` modulo 2^width.
+    pub fn add(&self, o: &Bv) -> Bv {
+        self.arith(o, |a, b| Some(a + b))
+    }
+    pub fn sub(&self, o: &Bv) -> Bv {
+        self.arith(o, |a, b| Some(a - b))
+    }
+    pub fn mul(&self, o: &Bv) -> Bv {
+        self.arith(o, |a, b| Some(a * b))
+    }
+    /// 11.4.2: truncates toward zero; division by zero ⇒ x.
+    pub fn div(&self, o: &Bv) -> Bv {
+        // BigInt `/` truncates toward zero
+        self.arith(o, |a, b| if b.is_zero() { None } else { Some(a / b) })
+    }
+    /// 11.4.2: the result takes the sign of the first operand; modulus by zero ⇒ x.
+    pub fn rem(&self, o: &Bv) -> Bv {
+        // BigInt `%` has the sign of the dividend
+        self.arith(o, |a, b| if b.is_zero() { None } else { Some(a % b) })
+    }
+    /// True when `self / o` (or `%`) is the signed `MIN / -1` corner.
+    pub fn is_min_div_minus_one(&self, o: &Bv) -> bool {
+        if !self.signed || !o.signed || self.has_xz() || o.has_xz() {
+            return false;
+        }
+        let w = self.width();
+        let min = (0..w).all(|i| (self.bits[i] == B1) == (i == w - 1));
+        min && o.bits.iter().all(|b| *b == B1)
+    }
+    /// `-a` = `0 - a`.
+    pub fn neg(&self) -> Bv {
+        Bv::zeros(self.width(), self.signed).sub(self)
+    }
+    /// `self ** exp` (11.4.3, Table 11-4).  `self` is in the context type;
+    /// `exp` is self-determined (own width and signedness).
+    pub fn pow(&self, exp: &Bv) -> Bv {
+        let w = self.width();
+        assert!(w > 0 && exp.width() > 0);
+        let (Some(base), Some(e)) = (self.to_bigint(), exp.to_bigint()) else {
+            return Bv::all_x(w, self.signed);
+        };
+        let one = BigInt::one();
+        if e.sign() == Sign::Minus {
+            // negative exponent
+            return if base.is_zero() {
+                Bv::all_x(w, self.signed)
+            } else if base == one {
+                Bv::from_bigint(&one, w, self.signed)
+            } else if base == -&one {
+                let odd = e.magnitude().bit(0);
+                Bv::from_bigint(&(if odd { -one } else { one }), w, self.signed)
+            } else {
+                Bv::zeros(w, self.signed)
+            };
+        }
+        // non-negative exponent: square-and-multiply on the two's complement
+        // pattern modulo 2^w (a ring homomorphism, so the sign takes care of itself)
+        let m = pow2(w);
+        let pat = self.to_biguint().unwrap();
+        let mut acc = BigUint::one() % &m;
+        let ebits = e.magnitude().bits();
+        for i in (0..ebits).rev() {
+            acc = (&acc * &acc) % &m;
+            if e.magnitude().bit(i) {
+                acc = (&acc * &pat) % &m;
+            }
+        }
+        Bv::from_biguint(&acc, w, self.signed)
+    }
+    fn bitwise(&self, o: &Bv, f: impl Fn(Bit, Bit) -> Bit) -> Bv {
+        self.same_type(o);
+        Bv::new(
+            self.bits.iter().zip(o.bits.iter()).map(|(a, b)| f(*a, *b)).collect(),
+            self.signed,
+        )
+    }
+    pub fn and(&self, o: &Bv) -> Bv {
+        self.bitwise(o, Bit::and)
+    }
+    pub fn or(&self, o: &Bv) -> Bv {
+        self.bitwise(o, Bit::or)
+    }
+    pub fn xor(&self, o: &Bv) -> Bv {
+        self.bitwise(o, Bit::xor)
+    }
+    pub fn xnor(&self, o: &Bv) -> Bv {
+        self.bitwise(o, Bit::xnor)
+    }
+    pub fn not(&self) -> Bv {
+        Bv::new(self.bits.iter().map(|b| b.not()).collect(), self.signed)
+    }
+    /// Shift amount: the right operand is always treated as unsigned
+    /// (11.4.10); `None` when it has an x/z bit.
+    fn shift_amount(amount: &Bv) -> Option<BigUint> {
+        amount.to_biguint()
+    }
+    /// `a << n` and `a <<< n` (identical, 11.4.10): vacated bits are 0; an
+    /// unknown amount gives all x.
+    pub fn shl(&self, amount: &Bv) -> Bv {
+        let w = self.width();
+        let Some(n) = Bv::shift_amount(amount) else {
+            return Bv::all_x(w, self.signed);
+        };
+        let n: usize = if n >= BigUint::from(w) { w } else { n.try_into().unwrap() };
+        let mut bits = vec![B0; w];
+        for i in n..w {
+            bits[i] = self.bits[i - n];
+        }
+        Bv::new(bits, self.signed)
+    }
+    /// `a >> n`: vacated bits are 0.
+    pub fn shr(&self, amount: &Bv) -> Bv {
+        self.shr_fill(amount, B0)
+    }
+    /// `a >>> n`: vacated bits take the MSB when the (context) type is signed,
+    /// 0 otherwise.
+    pub fn ashr(&self, amount: &Bv) -> Bv {
+        self.ashr_d(amount, &Dialect::default())
+    }
+    pub fn ashr_d(&self, amount: &Bv, d: &Dialect) -> Bv {
+        let mut fill = if self.signed { self.msb() } else { B0 };
+        if d.xz_sign_fill_x && fill.is_xz() {
+            fill = BX;
+        }
+        self.shr_fill(amount, fill)
+    }
+    fn shr_fill(&self, amount: &Bv, fill: Bit) -> Bv {
+        let w = self.width();
+        let Some(n) = Bv::shift_amount(amount) else {
+            return Bv::all_x(w, self.signed);
+        };
+        let n: usize = if n >= BigUint::from(w) { w } else { n.try_into().unwrap() };
+        let mut bits = vec![fill; w];
+        for i in 0..w - n {
+            bits[i] = self.bits[i + n];
+        }
+        Bv::new(bits, self.signed)
+    }
+    /// `<`, as a bit (x when an operand has x/z, 11.4.4).
+    pub fn lt(&self, o: &Bv) -> Bit {
+        self.same_type(o);
+        match (self.to_bigint(), o.to_bigint()) {
+            (Some(a), Some(b)) => Bit::from_bool(a < b),
+            _ => BX,
+        }
+    }
+    pub fn le(&self, o: &Bv) -> Bit {
+        o.lt(self).not()
+    }
+    pub fn gt(&self, o: &Bv) -> Bit {
+        o.lt(self)
+    }
+    pub fn ge(&self, o: &Bv) -> Bit {
+        self.lt(o).not()
+    }
+    /// `==` (11.4.5): 0 when some bit position holds two known, different
+    /// bits (the relation is decided); otherwise x when any bit of either
+    /// operand is x/z (ambiguous); otherwise 1.
+    pub fn eq_logical(&self, o: &Bv) -> Bit {
+        self.same_type(o);
+        let mut ambiguous = false;
+        for (a, b) in self.bits.iter().zip(o.bits.iter()) {
+            match (a.known(), b.known()) {
+                (Some(x), Some(y)) => {
+                    if x != y {
+                        return B0;
+                    }
+                }
+                _ => ambiguous = true,
+            }
+        }
+        if ambiguous { BX } else { B1 }
+    }
+    pub fn ne_logical(&self, o: &Bv) -> Bit {
+        self.eq_logical(o).not()
+    }
+    /// True when `==` sees a decided mismatch *and* an x/z bit: tools that
+    /// answer x whenever an operand has an x/z differ from the "ambiguous
+    /// only" reading here.  (Not a [`Latitude`]: the LRM wording is clear;
+    /// exposed for statistics.)
+    pub fn eq_decided_with_xz(&self, o: &Bv) -> bool {
+        self.eq_logical(o) == B0 && (self.has_xz() || o.has_xz())
+    }
+    /// `===` (11.4.5): x and z compare as values; never x.
+    pub fn eq_case(&self, o: &Bv) -> Bit {
+        self.same_type(o);
+        Bit::from_bool(self.bits == o.bits)
+    }
+    /// `==?` (11.4.6): x/z bits of the *right* operand are wildcards; the
+    /// remaining positions compare as `==`.
+    pub fn eq_wild(&self, o: &Bv) -> Bit {
+        self.same_type(o);
+        let mut ambiguous = false;
+        for (a, b) in self.bits.iter().zip(o.bits.iter()) {
+            let Some(y) = b.known() else { continue };
+            match a.known() {
+                Some(x) => {
+                    if x != y {
+                        return B0;
+                    }
+                }
+                None => ambiguous = true,
+            }
+        }
+        if ambiguous { BX } else { B1 }
+    }
+    /// Reductions (11.4.9): the bitwise table folded over all bits, starting
+    /// from the operator's identity (so a lone z bit still becomes x).
+    pub fn red_and(&self) -> Bit {
+        self.bits.iter().fold(B1, |a, b| a.and(*b))
+    }
+    pub fn red_or(&self) -> Bit {
+        self.bits.iter().fold(B0, |a, b| a.or(*b))
+    }
+    pub fn red_xor(&self) -> Bit {
+        self.bits.iter().fold(B0, |a, b| a.xor(*b))
+    }
+}
+
+impl fmt::Display for Bv {
+    /// `8'sb0000x01z`
+    fn fmt(&self, f: &mut fmt::Formatter<'_>) -> fmt::Result {
+        write!(
+            f,
+            "{}'{}b{}",
+            self.width(),
+            if self.signed { "s" } else { "" },
+            self.to_msb_string()
+        )
+    }
+}
+
+// ---------------------------------------------------------------------------
+// Expression-level helpers: sizing + signedness + operator
+// ---------------------------------------------------------------------------
+
+/// Result of an expression-level evaluation: the value and the latitude
+/// points touched on the way.
+#[derive(Clone, Debug, PartialEq, Eq)]
+pub struct Eval {
+    pub value: Bv,
+    pub latitude: Vec<Latitude>,
+}
+
+/// Self-determined width of `op x` (Table 11-21).
+pub fn unary_width(op: UnOp, x: usize) -> usize {
+    if op.is_context() { x } else { 1 }
+}
+
+/// Self-determined width of `x op y` (Table 11-21).
+pub fn binary_width(op: BinOp, x: usize, y: usize) -> usize {
+    match op.class() {
+        BinClass::Arith => x.max(y),
+        BinClass::ShiftPow => x,
+        BinClass::Compare | BinClass::Logical => 1,
+    }
+}
+
+/// Signedness of `x op y` (11.8.1).
+pub fn binary_signed(op: BinOp, x: bool, y: bool, d: &Dialect) -> bool {
+    match op.class() {
+        BinClass::Arith => x && y,
+        BinClass::ShiftPow if op == BinOp::Pow && d.pow_sign_from_both => x && y,
+        BinClass::ShiftPow => x,
+        BinClass::Compare | BinClass::Logical => false,
+    }
+}
+
+/// Apply a sized unary operator.  For `+ - ~` the operand must already be in
+/// the context type; for the others it is the self-determined operand and
+/// the result is 1 bit unsigned.
+pub fn unary_sized(op: UnOp, x: &Bv, d: &Dialect) -> Bv {
+    match op {
+        UnOp::Plus => {
+            if x.has_xz() && !d.unary_plus_passthrough {
+                Bv::all_x(x.width(), x.signed())
+            } else {
+                x.clone()
+            }
+        }
+        UnOp::Minus => x.neg(),
+        UnOp::BitNot => x.not(),
+        UnOp::RedAnd => Bv::bit1(x.red_and()),
+        UnOp::RedNand => Bv::bit1(x.red_and().not()),
+        UnOp::RedOr => Bv::bit1(x.red_or()),
+        UnOp::RedNor => Bv::bit1(x.red_or().not()),
+        UnOp::RedXor => Bv::bit1(x.red_xor()),
+        UnOp::RedXnor => Bv::bit1(x.red_xor().not()),
+        UnOp::LogNot => Bv::bit1(x.truth().to_bit().not()),
+    }
+}
+
+/// `&&` / `||` on three-valued truths (11.4.7): `0 && x = 0`, `1 || x = 1`.
+pub fn logical(op: BinOp, a: Truth, b: Truth) -> Bit {
+    match op {
+        BinOp::LogAnd => a.to_bit().and(b.to_bit()),
+        BinOp::LogOr => a.to_bit().or(b.to_bit()),
+        _ => panic!("not a logical operator"),
+    }
+}
+
+/// `c ? a : b` (11.4.11) with the arms already in the context type.
+pub fn cond_sized(c: &Bv, a: &Bv, b: &Bv) -> Bv {
+    a.same_type(b);
+    match c.truth() {
+        Truth::True => a.clone(),
+        Truth::False => b.clone(),
+        Truth::Unknown => a.bitwise(b, Bit::merge),
+    }
+}
+
+/// Size cast `N'(x)` (6.24.1): the value an `N`-bit variable holds after
+/// being assigned `x` — extended by the operand's own signedness or
+/// truncated; the signedness passes through.
+pub fn size_cast(x: &Bv, n: usize) -> Bv {
+    x.resize(n)
+}
+
+fn eval_outer(e: &expr::Expr, ctx_width: Option<usize>, ctx_signed: Option<bool>, d: &Dialect) -> Eval {
+    let w = e.width().max(ctx_width.unwrap_or(0));
+    let s = e.signed_d(d) && ctx_signed.unwrap_or(true);
+    let mut n = expr::Notes::default();
+    let value = e.eval_in(w, s, d, &mut n);
+    Eval {
+        value,
+        latitude: n.latitude,
+    }
+}
+
+/// `op x` for a simple operand `x`, evaluated in a context of `ctx_width`
+/// bits (`None` = self-determined).  `ctx_signed`: signedness imposed by the
+/// rest of the context (`None` = nothing else in the context; `Some(false)` =
+/// an unsigned sibling made the whole context unsigned) — it can only ever
+/// remove signedness.  The result is `max(self-determined width, ctx_width)`
+/// bits wide.
+pub fn unary(op: UnOp, x: &Bv, ctx_width: Option<usize>, ctx_signed: Option<bool>) -> Eval {
+    unary_d(op, x, ctx_width, ctx_signed, &Dialect::default())
+}
+pub fn unary_d(op: UnOp, x: &Bv, ctx_width: Option<usize>, ctx_signed: Option<bool>, d: &Dialect) -> Eval {
+    eval_outer(&expr::Expr::un(op, expr::Expr::Lit(x.clone())), ctx_width, ctx_signed, d)
+}
+
+/// `x op y` for two simple operands; context as for [`unary`].
+pub fn binary(op: BinOp, x: &Bv, y: &Bv, ctx_width: Option<usize>, ctx_signed: Option<bool>) -> Eval {
+    binary_d(op, x, y, ctx_width, ctx_signed, &Dialect::default())
+}
+pub fn binary_d(
+    op: BinOp,
+    x: &Bv,
+    y: &Bv,
+    ctx_width: Option<usize>,
+    ctx_signed: Option<bool>,
+    d: &Dialect,
+) -> Eval {
+    eval_outer(
+        &expr::Expr::bin(op, expr::Expr::Lit(x.clone()), expr::Expr::Lit(y.clone())),
+        ctx_width,
+        ctx_signed,
+        d,
+    )
+}
+
+/// `c ? a : b` for simple operands; context as for [`unary`].
+pub fn cond(c: &Bv, a: &Bv, b: &Bv, ctx_width: Option<usize>, ctx_signed: Option<bool>) -> Eval {
+    cond_d(c, a, b, ctx_width, ctx_signed, &Dialect::default())
+}
+pub fn cond_d(
+    c: &Bv,
+    a: &Bv,
+    b: &Bv,
+    ctx_width: Option<usize>,
+    ctx_signed: Option<bool>,
+    d: &Dialect,
+) -> Eval {
+    eval_outer(
+        &expr::Expr::cond(
+            expr::Expr::Lit(c.clone()),
+            expr::Expr::Lit(a.clone()),
+            expr::Expr::Lit(b.clone()),
+        ),
+        ctx_width,
+        ctx_signed,
+        d,
+    )
+}
+
+#[cfg(test)]
+mod tests {
+    use super::*;
+
+    fn b(s: &str) -> Bv {
+        // "4'sb10xz" / "4'b0101"
+        let (w, rest) = s.split_once('\'').unwrap();
+        let signed = rest.starts_with('s');
+        let digits = rest.trim_start_matches('s').trim_start_matches('b');
+        let v = Bv::from_msb_str(digits, signed).unwrap();
+        assert_eq!(v.width(), w.parse::<usize>().unwrap());
+        v
+    }
+    fn bin(op: BinOp, x: &str, y: &str) -> String {
+        binary(op, &b(x), &b(y), None, None).value.to_string()
+    }
+
+    #[test]
+    fn lrm_examples() {
+        // 11.4.2 Table 11-6 style examples
+        assert_eq!(bin(BinOp::Div, "4'b1010", "4'b0011"), "4'b0011");
+        assert_eq!(bin(BinOp::Rem, "4'sb1001", "4'sb0011"), "4'sb1111"); // -7 % 3 = -1
+        assert_eq!(bin(BinOp::Rem, "4'sb0111", "4'sb1101"), "4'sb0001"); // 7 % -3 = 1
+        assert_eq!(bin(BinOp::Div, "4'sb1001", "4'sb0010"), "4'sb1101"); // -7 / 2 = -3
+        assert_eq!(bin(BinOp::Div, "4'b1010", "4'b0000"), "4'bxxxx");
+        assert_eq!(bin(BinOp::Add, "4'b1010", "4'b0x00"), "4'bxxxx");
+        // wrap-around
+        assert_eq!(bin(BinOp::Add, "4'b1111", "4'b0001"), "4'b0000");
+        assert_eq!(bin(BinOp::Mul, "4'sb1000", "4'sb1111"), "4'sb1000");
+        // mixed sign ⇒ unsigned, zero extension
+        assert_eq!(bin(BinOp::Add, "2'sb11", "4'b0000"), "4'b0011");
+        assert_eq!(bin(BinOp::Add, "2'sb11", "4'sb0000"), "4'sb1111");
+        // bitwise tables
+        assert_eq!(bin(BinOp::And, "4'b01xz", "4'b0000"), "4'b0000");
+        assert_eq!(bin(BinOp::And, "4'b01xz", "4'b1111"), "4'b01xx");
+        assert_eq!(bin(BinOp::Or, "4'b01xz", "4'b1111"), "4'b1111");
+        assert_eq!(bin(BinOp::Or, "4'b01xz", "4'b0000"), "4'b01xx");
+        assert_eq!(bin(BinOp::Xor, "4'b01xz", "4'b1111"), "4'b10xx");
+        // equality
+        assert_eq!(bin(BinOp::Eq, "2'b1x", "2'b11"), "1'bx");
+        assert_eq!(bin(BinOp::Eq, "2'b1x", "2'b01"), "1'b0");
+        assert_eq!(bin(BinOp::Ne, "2'b1x", "2'b01"), "1'b1");
+        assert_eq!(bin(BinOp::Eq, "2'b10", "2'b10"), "1'b1");
+        assert_eq!(bin(BinOp::CaseEq, "2'b1x", "2'b1x"), "1'b1");
+        assert_eq!(bin(BinOp::CaseEq, "2'b1x", "2'b1z"), "1'b0");
+        assert_eq!(bin(BinOp::WildEq, "4'b0011", "4'b00xx"), "1'b1");
+        assert_eq!(bin(BinOp::WildEq, "4'b0111", "4'b00xx"), "1'b0");
+        assert_eq!(bin(BinOp::WildEq, "4'b0x11", "4'b00xx"), "1'bx");
+        assert_eq!(bin(BinOp::WildEq, "4'b00xx", "4'b0011"), "1'bx");
+        // relational
+        assert_eq!(bin(BinOp::Lt, "4'sb1111", "4'sb0001"), "1'b1");
+        assert_eq!(bin(BinOp::Lt, "4'sb1111", "4'b0001"), "1'b0");
+        assert_eq!(bin(BinOp::Lt, "4'b1x11", "4'b0001"), "1'bx");
+        // logical
+        assert_eq!(bin(BinOp::LogAnd, "1'b0", "1'bx"), "1'b0");
+        assert_eq!(bin(BinOp::LogAnd, "1'bx", "1'b0"), "1'b0");
+        assert_eq!(bin(BinOp::LogAnd, "1'b1", "1'bx"), "1'bx");
+        assert_eq!(bin(BinOp::LogOr, "1'b1", "1'bx"), "1'b1");
+        assert_eq!(bin(BinOp::LogOr, "1'b0", "1'bz"), "1'bx");
+        assert_eq!(bin(BinOp::LogAnd, "2'b1x", "2'b01"), "1'b1");
+        // shifts (11.4.10 examples)
+        assert_eq!(bin(BinOp::Shl, "4'b0001", "2'b10"), "4'b0100");
+        assert_eq!(bin(BinOp::AShr, "4'sb1000", "2'b10"), "4'sb1110");
+        assert_eq!(bin(BinOp::AShr, "4'b1000", "2'b10"), "4'b0010");
+        assert_eq!(bin(BinOp::Shr, "4'sb1000", "2'b10"), "4'sb0010");
+        assert_eq!(bin(BinOp::Shr, "4'b1000", "3'b100"), "4'b0000");
+        assert_eq!(bin(BinOp::AShr, "4'sb1000", "3'b111"), "4'sb1111");
+        assert_eq!(bin(BinOp::Shl, "4'b1000", "2'b1x"), "4'bxxxx");
+        assert_eq!(bin(BinOp::Shr, "4'bz01x", "1'b1"), "4'b0z01");
+        // power (Table 11-4)
+        assert_eq!(bin(BinOp::Pow, "4'b0010", "4'b0011"), "4'b1000");
+        assert_eq!(bin(BinOp::Pow, "4'b0010", "4'b0100"), "4'b0000");
+        assert_eq!(bin(BinOp::Pow, "4'sb1110", "4'sb0011"), "4'sb1000"); // (-2)**3 = -8
+        assert_eq!(bin(BinOp::Pow, "4'sb0010", "4'sb1111"), "4'sb0000"); // 2 ** -1 = 0
+        assert_eq!(bin(BinOp::Pow, "4'sb0000", "4'sb1111"), "4'sbxxxx"); // 0 ** -1 = x
+        assert_eq!(bin(BinOp::Pow, "4'sb1111", "4'sb1111"), "4'sb1111"); // -1 ** -1 = -1
+        assert_eq!(bin(BinOp::Pow, "4'sb1111", "4'sb1110"), "4'sb0001"); // -1 ** -2 = 1
+        assert_eq!(bin(BinOp::Pow, "4'sb0001", "4'sb1000"), "4'sb0001");
+        assert_eq!(bin(BinOp::Pow, "4'sb0000", "4'sb0000"), "4'sb0001");
+        assert_eq!(bin(BinOp::Pow, "4'sb0101", "4'sb0000"), "4'sb0001");
+    }
+
+    #[test]
+    fn unary_ops() {
+        let u = |op, x: &str| unary(op, &b(x), None, None).value.to_string();
+        assert_eq!(u(UnOp::Minus, "4'b0001"), "4'b1111");
+        assert_eq!(u(UnOp::Minus, "4'b00x1"), "4'bxxxx");
+        assert_eq!(u(UnOp::Plus, "4'b00x1"), "4'bxxxx");
+        assert_eq!(u(UnOp::Plus, "4'b0011"), "4'b0011");
+        let pt = Dialect { unary_plus_passthrough: true, ..Default::default() };
+        assert_eq!(unary_d(UnOp::Plus, &b("4'b00z1"), None, None, &pt).value.to_string(), "4'b00z1");
+        assert_eq!(unary(UnOp::Plus, &b("4'b00z1"), None, None).latitude, vec![Latitude::UnaryPlusXz]);
+        assert_eq!(u(UnOp::BitNot, "4'b01xz"), "4'b10xx");
+        assert_eq!(u(UnOp::RedAnd, "4'b11x1"), "1'bx");
+        assert_eq!(u(UnOp::RedAnd, "4'b01x1"), "1'b0");
+        assert_eq!(u(UnOp::RedOr, "4'b00x1"), "1'b1");
+        assert_eq!(u(UnOp::RedOr, "4'b00z0"), "1'bx");
+        assert_eq!(u(UnOp::RedXor, "4'b0111"), "1'b1");
+        assert_eq!(u(UnOp::RedXnor, "4'b0111"), "1'b0");
+        assert_eq!(u(UnOp::RedXor, "4'b01x1"), "1'bx");
+        assert_eq!(u(UnOp::RedNand, "1'bz"), "1'bx");
+        assert_eq!(u(UnOp::LogNot, "4'b0x10"), "1'b0");
+        assert_eq!(u(UnOp::LogNot, "4'b0x00"), "1'bx");
+        assert_eq!(u(UnOp::LogNot, "4'b0000"), "1'b1");
+        // context: -4'sb1000 in 8 bits
+        assert_eq!(unary(UnOp::Minus, &b("4'sb1000"), Some(8), None).value.to_string(), "8'sb00001000");
+        assert_eq!(unary(UnOp::BitNot, &b("4'b1000"), Some(8), None).value.to_string(), "8'b11110111");
+        assert_eq!(unary(UnOp::RedOr, &b("4'b1000"), Some(4), None).value.to_string(), "4'b0001");
+    }
+
+    #[test]
+    fn conditional_and_structure() {
+        let c = |c: &str, a: &str, bb: &str| cond(&b(c), &b(a), &b(bb), None, None).value.to_string();
+        assert_eq!(c("1'b1", "4'b0101", "4'b0110"), "4'b0101");
+        assert_eq!(c("1'b0", "4'b0101", "4'b0110"), "4'b0110");
+        assert_eq!(c("1'bx", "4'b0101", "4'b0110"), "4'b01xx");
+        assert_eq!(c("1'bz", "4'bzz01", "4'bzz01"), "4'bxx01");
+        assert_eq!(c("1'b1", "2'sb11", "4'sb0000"), "4'sb1111");
+        assert_eq!(c("1'b1", "2'sb11", "4'b0000"), "4'b0011");
+        assert_eq!(b("2'b1x").concat(&b("2'sbz0")).to_string(), "4'b1xz0");
+        assert_eq!(b("2'sb10").replicate(3).to_string(), "6'b101010");
+        assert_eq!(b("4'b1010").part_select(5, 2).to_string(), "4'bxx10");
+        assert_eq!(b("4'b1010").part_assign(5, 2, &b("4'b0101")).to_string(), "4'b0110");
+        assert_eq!(size_cast(&b("4'sb1010"), 8).to_string(), "8'sb11111010");
+        assert_eq!(size_cast(&b("4'b1010"), 8).to_string(), "8'b00001010");
+        assert_eq!(size_cast(&b("4'sb1010"), 2).to_string(), "2'sb10");
+    }
+
+    #[test]
+    fn encodings() {
+        let v = b("5'b01xz1");
+        let (val, xz) = v.to_planes();
+        assert_eq!(Bv::from_planes(&val, &xz, 5, false), v);
+        let w = v.to_sv_logic_words();
+        assert_eq!(w, vec![(0b01101, 0b00110)]);
+        assert_eq!(Bv::from_sv_logic_words(&w, 5, false), v);
+    }
+}
